@@ -12,7 +12,7 @@
    harness checks them numerically on every run. *)
 From Coq Require Import String.
 From Coq Require Import List QArith Permutation.
-From QV Require Import Model.Sched Proofs.SchedBase Proofs.SchedC11Inst Proofs.SchedC05.
+From QV Require Import Model.Sched Proofs.SchedBase Proofs.SchedC11Inst Proofs.SchedC05 Proofs.SchedCheck.
 Import ListNotations.
 
 Theorem cycles_defined :
@@ -82,6 +82,27 @@ Theorem commutation_rules_orig_refuted :
   exists s, fredkin_bits 0 2 3 (fredkin_bits 0 1 2 s) <> fredkin_bits 0 1 2 (fredkin_bits 0 2 3 s).
 Proof. exact commutation_rules_orig_refuted. Qed.
 Print Assumptions commutation_rules_orig_refuted.
+
+(* any cycle list accepted by the executable checker has all four properties (used by the harness to validate the
+   REAL scheduler's output inside Coq for circuits with more than 8 gates) *)
+Theorem valid_cycles_sound :
+  forall commI perm instrs cycles, valid_cycles commI perm instrs cycles = true ->
+  Permutation (concat cycles) (seq 0 (length instrs)) /\
+  (forall c, In c cycles -> forall a b, In a c -> In b c -> a <> b -> disjoint_qubits (ith instrs a) (ith instrs b)) /\
+  (forall i j, i < j -> j < length instrs -> (exists q, uses (ith instrs i) q /\ uses (ith instrs j) q) ->
+      commN commI perm instrs j i = false -> cidx cycles i < cidx cycles j) /\
+  (forall (St : Type) (act : instr -> St -> St),
+      (forall a b, disjoint_qubits a b -> forall s, act a (act b s) = act b (act a s)) ->
+      (forall a b, commI a b = true -> forall s, act a (act b s) = act b (act a s)) ->
+      forall s, fold_left (fun s i => act (ith instrs i) s) (concat cycles) s = fold_left (fun s g => act g s) instrs s).
+Proof. exact valid_cycles_sound. Qed.
+Print Assumptions valid_cycles_sound.
+
+Example checker_accepts_example : valid_cycles commutation_rules true c05_example [[0; 2]; [1]] = true.
+Proof. vm_compute. reflexivity. Qed.
+
+Example checker_rejects_swapped : valid_cycles commutation_rules true c05_example [[1]; [0; 2]] = false.
+Proof. vm_compute. reflexivity. Qed.
 
 (* non-vacuity *)
 Example valid_input_inhabited : valid_input c05_example.
